@@ -146,8 +146,14 @@ static int line_to_instr(struct instr *instr_data, char *filtered_asm_str) {
   }
   // special case for push instruction with immediate
   // (used push imm16 or imm32 when immediate is greater than 0x7f)
-  if (NAME(instr_data->key, push) && instr_data->cons > MAX_SIGNED_8BIT)
+  // (a negative value travels as its 64-bit two's complement: it is pushed
+  // as a sign-extended imm8 or imm32)
+  if (NAME(instr_data->key, push) && instr_data->cons > MAX_SIGNED_8BIT &&
+      instr_data->cons < NEG80BIT) {
+    if (instr_data->cons >= (NEG32BIT | NEG32BIT_CHECK))
+      instr_data->cons &= MAX_UNSIGNED_32BIT;
     instr_data->key++;
+  }
   return EXIT_SUCCESS;
 }
 
